@@ -11,6 +11,7 @@ import (
 func init() {
 	verifHarnesses["VerifC12_StoresImplementTheAbstractMap"] = VerifC12_StoresImplementTheAbstractMap
 	verifHarnesses["VerifC12_MemoryLockDiscipline"] = VerifC12_MemoryLockDiscipline
+	verifHarnesses["VerifC12_CreationTimeFixedByFirstWrite"] = VerifC12_CreationTimeFixedByFirstWrite
 }
 
 // refEntry / refMap: the abstract session map of the property.
@@ -180,4 +181,91 @@ func VerifC12_MemoryLockDiscipline() {
 	vn.Unwatch()
 	vn.Cover("C12/lock-audit", true)
 	vn.Assert("C12/mutex-released-on-return", !vn.MutexHeld(&k.m.mu))
+}
+
+// VerifC12_CreationTimeFixedByFirstWrite: the abstract map's "created" member. Both stores are
+// built with an absolute session timeout A (idle timeout off), which makes the creation time
+// observable: after any bounded history of operations and clock advances an id is readable
+// exactly while now < created + A, where created is the instant of the first write since the id
+// was last absent (removed, expired or never written) -- operations that write nothing (a read,
+// clearing the login state of an absent id, a removal) create nothing and later writes do not
+// move it. Instants within two seconds of a limit are left out (granularity of Redis expiry).
+func VerifC12_CreationTimeFixedByFirstWrite() {
+	ctx := context.Background()
+	k := &kitRedis{}
+	k.abs = time.Duration(vn.Int("absolute-timeout-s", 1, 4294967295)) * time.Second
+	k.now = vn.Time("now0")
+	clock := &Clock{NowFn: func() time.Time { return k.now }}
+	client := kitRedisClient(k)
+	defer k.close()
+	red, err := NewRedisStore(clock, client, k.abs, 0)
+	vn.Assert("kit/redis-store-created", err == nil)
+	mem := NewMemoryStore(clock, k.abs, 0)
+	id := vn.StringIn("sid", 2, alphaID)
+	vn.Assume(len(id) > 0)
+	var ref *refEntry
+	nops := vn.Bound("c12-ops", 2) + 1
+	for step := 0; step < nops; step++ {
+		n := "op" + string(rune('0'+step))
+		if ref != nil && !k.now.Before(ref.created.Add(k.abs)) {
+			ref = nil // expired: the id is absent again
+		}
+		switch vn.Choice(n, 5) {
+		case 0:
+			t := &TokenResponse{IDToken: vn.JWT(n+"-id", true, 0, "", 0, "", "", vn.Time(n+"-exp"), true), AccessToken: vn.StringIn(n+"-access", 2, alphaID)}
+			e1, e2 := mem.SetTokenResponse(ctx, id, t), red.SetTokenResponse(ctx, id, t)
+			vn.Assert("C12/set-tokens-no-error", vn.And(e1 == nil, e2 == nil))
+			if ref == nil {
+				ref = &refEntry{created: k.now}
+			}
+			ref.tokens = t
+		case 1:
+			a := &AuthorizationState{State: vn.StringIn(n+"-state", 2, alphaID), Nonce: "n", RequestedURL: "u", CodeVerifier: "v"}
+			vn.Assume(a.State != "")
+			e1, e2 := mem.SetAuthorizationState(ctx, id, a), red.SetAuthorizationState(ctx, id, a)
+			vn.Assert("C12/set-state-no-error", vn.And(e1 == nil, e2 == nil))
+			if ref == nil {
+				ref = &refEntry{created: k.now}
+			}
+			ref.auth = a
+		case 2:
+			_ = mem.ClearAuthorizationState(ctx, id)
+			_ = red.ClearAuthorizationState(ctx, id)
+			if ref != nil {
+				ref.auth = nil
+			}
+		case 3:
+			e1, e2 := mem.RemoveSession(ctx, id), red.RemoveSession(ctx, id)
+			vn.Assert("C12/remove-no-error", vn.And(e1 == nil, e2 == nil))
+			ref = nil
+		default:
+			_, _ = mem.GetTokenResponse(ctx, id)
+			_, _ = red.GetTokenResponse(ctx, id)
+		}
+		t := vn.Time(n + "-then")
+		vn.Assume(!t.Before(k.now))
+		k.advance(t)
+		var wantT *TokenResponse
+		var wantA *AuthorizationState
+		if ref != nil {
+			limit := ref.created.Add(k.abs)
+			vn.Assume(vn.Or(k.now.Before(limit.Add(-2*time.Second)), k.now.After(limit.Add(2*time.Second))))
+			if k.now.Before(limit) {
+				wantT, wantA = ref.tokens, ref.auth
+				vn.Cover("C12/created-observed-live", step > 0)
+			} else {
+				vn.Cover("C12/created-observed-expired", true)
+			}
+		}
+		mt, err1 := mem.GetTokenResponse(ctx, id)
+		rt, err2 := red.GetTokenResponse(ctx, id)
+		vn.Assert("C12/read-tokens-no-error", vn.And(err1 == nil, err2 == nil))
+		vn.Assert("C12/memory-created-fixed-by-first-write:tokens", sameTokens(mt, wantT))
+		vn.Assert("C12/redis-created-fixed-by-first-write:tokens", sameTokens(rt, wantT))
+		ma, err3 := mem.GetAuthorizationState(ctx, id)
+		ra, err4 := red.GetAuthorizationState(ctx, id)
+		vn.Assert("C12/read-state-no-error", vn.And(err3 == nil, err4 == nil))
+		vn.Assert("C12/memory-created-fixed-by-first-write:state", sameAuth(ma, wantA))
+		vn.Assert("C12/redis-created-fixed-by-first-write:state", sameAuth(ra, wantA))
+	}
 }
